@@ -293,6 +293,14 @@ type X struct { // per-evaluation context handed to check functions
 	r *Rec
 }
 
+// SubEval counts one more execution inside the current case (e.g. one (model, output kind) pair of a
+// case that checks many kinds): evaluations are executions, so distinct_nontrivial stays comparable.
+func (x *X) SubEval() {
+	x.r.mu.Lock()
+	x.r.Evaluations++
+	x.r.Requested++
+	x.r.mu.Unlock()
+}
 func (x *X) Class(name string)       { x.r.Class(name) }
 func (x *X) NonTrivial(key string)   { x.r.NonTrivial(key) }
 func (x *X) Sample(v interface{})    { x.r.Sample(v) }
